@@ -18,7 +18,7 @@ def shard_files():
         files["OC_%s.v" % k] = ("From Coq Require Import ZArith List Bool String.\nFrom Yad Require Import Base Couplings Weights Combiner Thresholds Outcome.\n"
                                 "From YadGen Require Import Inventory.\nImport ListNotations.\n\n"
                                 "(* exhaustive scan of the lattice cells of kind %s over the regenerated inventory: no internal look-up failure\n"
-                                "   outside the documented gaps (polarised g1 at N3LO) *)\n"
+                                "   (no documented gap is left: the statement covers every cell) *)\n"
                                 "Theorem no_crash : undocumented_crashes_kind inventory %s = [].\nProof. vm_compute. reflexivity. Qed.\nPrint Assumptions no_crash.\n" % (k, k))
     return files
 
